@@ -1,9 +1,32 @@
 import PyamgV.Driver.Util
-/-! Driver ops of extension task E11 (op names prefixed `ext_`). -/
+import PyamgV.Model.ExtC07Restart
+import PyamgV.Model.ExtC07Hh
+/-! Driver ops of extension task E11 (property C07; op names prefixed `ext_`).  All numbers are binary64 bit
+patterns written as decimal integers; matrices: rows separated by `;`; the answer is `<x_1;…;x_m>` (the iterates
+the model hands to `callback`), `-` for none, `bad-size` when the shapes do not fit.
+
+`ext_gmres_restart <A> <M> <b> <x0> <restart> <cycles>`  restarted GMRES(MGS) (`Model/ExtC07Restart.lean`)
+`ext_fgmres <A> <M_0|M_1|…> <b> <x0> <k>`   one FGMRES cycle, preconditioner `M_(j mod count)` in inner
+                                              iteration `j` (`Model/ExtC07Hh.lean`)
+`ext_gmres_hh <A> <M> <b> <x0> <k>`          one cycle of GMRES with Householder orthogonalisation -/
 namespace PyamgV.Drv.ExtE11
-open PyamgV PyamgV.Drv
+open PyamgV PyamgV.Drv PyamgV.C07
+
+def fmat (t : String) : List (List Float) :=
+  if t = "-" then [] else (t.splitOn ";").map (fun r => (parseFloats r).toList)
+
+def showIts : Option (List (List Float)) → String
+  | none => "bad-size"
+  | some xs => if xs.isEmpty then "-" else
+      String.intercalate ";" (xs.map fun v => sh (v.map fun f => toString f.toBits.toNat))
 
 def handle : List String → Option String
+  | ["ext_gmres_restart", a, m, b, x0, r, c] =>
+    some (showIts (gmresRestartFloat (fmat a) (fmat m) (parseFloats b).toList (parseFloats x0).toList (nat r) (nat c)))
+  | ["ext_fgmres", a, ms, b, x0, k] =>
+    some (showIts (fgmresFloat (fmat a) ((ms.splitOn "|").map fmat) (parseFloats b).toList (parseFloats x0).toList (nat k)))
+  | ["ext_gmres_hh", a, m, b, x0, k] =>
+    some (showIts (gmresHhFloat (fmat a) (fmat m) (parseFloats b).toList (parseFloats x0).toList (nat k)))
   | _ => none
 
 end PyamgV.Drv.ExtE11
